@@ -352,7 +352,7 @@ fn run_script(s: &Script, st: &mut Stats) -> Result<(), String> {
 
 fn search(b: &Board, tf: &ThreeFold, k: u64, positional: bool) -> Result<(), String> {
     match run_search(b, tf, k, positional) {
-        Ok(((mv, sc), _, _)) => {
+        Ok(((mv, sc), _, _, _)) => {
             let _ = format!("{sc:?} {sc:+?}");
             if let Some(m) = mv {
                 if !b.is_legal(m) {
@@ -486,6 +486,10 @@ pub const C07: CheckDef = CheckDef {
     id: "C07",
     worker,
     replay: |v| {
+        if let Some(h) = v.get("fuzz_bytes_hex").and_then(|x| x.as_str()) {
+            let bytes: Vec<u8> = (0..h.len() / 2).map(|i| u8::from_str_radix(&h[2 * i..2 * i + 2], 16).unwrap_or(0)).collect();
+            return fuzz_one(&bytes);
+        }
         let s: Script = serde_json::from_value(v.clone()).map_err(|e| e.to_string())?;
         run_script(&s, &mut Stats::new())
     },
@@ -500,3 +504,154 @@ pub const C07: CheckDef = CheckDef {
     known_signature: no_signature,
     profile: "checked",
 };
+
+// ---------------------------------------------------------------------------------------
+// byte-level decoding for the coverage-guided target (fuzz/fuzz_targets/api.rs): the bytes
+// are decoded into the same structured scripts the proptest strategy produces
+
+pub struct Cur<'a> {
+    d: &'a [u8],
+    i: usize,
+}
+
+impl<'a> Cur<'a> {
+    pub fn new(d: &'a [u8]) -> Self {
+        Cur { d, i: 0 }
+    }
+    pub fn done(&self) -> bool {
+        self.i >= self.d.len()
+    }
+    pub fn u8(&mut self) -> u8 {
+        let v = self.d.get(self.i).copied().unwrap_or(0);
+        self.i += 1;
+        v
+    }
+    pub fn u16(&mut self) -> u16 {
+        u16::from_le_bytes([self.u8(), self.u8()])
+    }
+    pub fn u64(&mut self) -> u64 {
+        let mut b = [0u8; 8];
+        for x in b.iter_mut() {
+            *x = self.u8();
+        }
+        u64::from_le_bytes(b)
+    }
+    pub fn vec8(&mut self, max: usize) -> Vec<u8> {
+        let n = (self.u8() as usize) % (max + 1);
+        (0..n).map(|_| self.u8()).collect()
+    }
+}
+
+fn root_from(c: &mut Cur) -> Root {
+    match c.u8() % 4 {
+        0 => Root::Named { idx: c.u16() % ROOTS.len() as u16, mirror: c.u8() & 1 == 1 },
+        1 => {
+            let n = (c.u8() % 29) as usize;
+            Root::Synth(Synth {
+                wk: c.u8(),
+                bk: c.u8(),
+                pieces: (0..n).map(|_| (c.u8(), c.u8())).collect(),
+                black_to_move: c.u8() & 1 == 1,
+                castle: if c.u8() & 1 == 0 { 0 } else { c.u8() % 16 },
+                ep: if c.u8() % 3 == 0 { Some((c.u8() % 8, c.u8() % 4)) } else { None },
+            })
+        }
+        _ => {
+            let kind = c.u8() % MOTIFS;
+            let mut a = c.vec8(40);
+            while a.len() < 12 {
+                a.push(c.u8());
+            }
+            Root::Motif { kind, a, mirror: c.u8() & 1 == 1 }
+        }
+    }
+}
+
+fn clock_from(c: &mut Cur) -> u16 {
+    match c.u8() % 5 {
+        0 => 0,
+        1 => (c.u8() % 121) as u16,
+        2 => 9990 + (c.u8() % 10) as u16,
+        3 => u16::MAX - (c.u8() % 2) as u16,
+        _ => c.u16(),
+    }
+}
+
+fn bops_from(c: &mut Cur) -> Vec<BOp> {
+    let n = (c.u8() % 30) as usize;
+    (0..n)
+        .map(|_| match c.u8() % 13 {
+            0..=7 => BOp::Place(c.u8(), c.u8()),
+            8 => BOp::Remove(c.u8()),
+            9 => BOp::Turn(c.u8() & 1 == 1),
+            10 => BOp::Ep(if c.u8() & 1 == 0 { None } else { Some(c.u8() % 8) }),
+            11 => BOp::Half(clock_from(c)),
+            _ => BOp::Full(clock_from(c)),
+        })
+        .collect()
+}
+
+pub fn script_from_bytes(data: &[u8]) -> Script {
+    let mut c = Cur::new(data);
+    let mut ops = vec![];
+    while !c.done() && ops.len() < 40 {
+        let op = match c.u8() % 32 {
+            0..=2 => Op7::Construct(match c.u8() % 13 {
+                0 => Cons::Standard,
+                1..=6 => Cons::Root(root_from(&mut c), clock_from(&mut c), clock_from(&mut c)),
+                7..=9 => {
+                    let n = (c.u8() % 30) as usize;
+                    Cons::Free {
+                        wk: c.u8(),
+                        bk: c.u8(),
+                        pieces: (0..n).map(|_| (c.u8(), c.u8())).collect(),
+                        black: c.u8() & 1 == 1,
+                        castle: if c.u8() % 4 == 0 { c.u8() % 16 } else { 0 },
+                        ep: if c.u8() % 4 == 0 { Some(c.u8() % 8) } else { None },
+                        half: clock_from(&mut c).min(9999),
+                        full: clock_from(&mut c).min(9999),
+                    }
+                }
+                _ => Cons::Builder(c.u8(), c.u8(), bops_from(&mut c)),
+            }),
+            3..=12 => Op7::Legal(c.u16(), c.u8()),
+            13 | 14 => Op7::Any(c.u8(), c.u8(), c.u8()),
+            15..=18 => {
+                let mask = if c.u8() & 1 == 0 { None } else { Some(c.u64()) };
+                let n = (c.u8() % 14) as usize;
+                let its = (0..n)
+                    .map(|_| match c.u8() % 18 {
+                        0..=5 => It::Next,
+                        6 | 7 => It::Len,
+                        8 | 9 => It::SetMask(c.u64()),
+                        10 | 11 => It::Remove(c.u64() & c.u64()),
+                        12 | 13 => It::RemoveMove(c.u16()),
+                        14 => It::Clone,
+                        15 => It::Count,
+                        16 => It::Nth(c.u8() % 70),
+                        _ => It::Last,
+                    })
+                    .collect();
+                Op7::Iter(mask, its)
+            }
+            19 => Op7::KingLegals,
+            20 | 21 => Op7::Query,
+            22 => Op7::Format,
+            23 => Op7::Perft(c.u8()),
+            24 | 25 => Op7::Search(c.u16() % 1500, c.u8() & 1 == 1),
+            26 => Op7::LongSearch(c.u8()),
+            27 => Op7::TfAdd([1u16, 3, 254, 255, 256, 300, 599][(c.u8() % 7) as usize]),
+            28 => Op7::Book((0..(c.u8() % 10)).map(|_| c.u16()).collect()),
+            29 => Op7::BitIter(c.u8(), [0u64, 1, 5, 63, 64, 65, 127, 128, 1 << 32, u64::MAX][(c.u8() % 10) as usize]),
+            _ => Op7::Reparse,
+        };
+        ops.push(op);
+    }
+    Script { ops }
+}
+
+/// entry point of the coverage-guided target: Err = property violated
+pub fn fuzz_one(data: &[u8]) -> Result<(), String> {
+    let s = script_from_bytes(data);
+    run_script(&s, &mut Stats::new())
+}
